@@ -45,5 +45,5 @@ PROPS = {
     'C17': P('C17', 16000, 1000000, modules=['D128.Props.C17', 'D128.Props.C17Oracle', 'D128.Props.C15'] + KERNEL + WIDE, kernel=['decomposed192.mul', 'decomposed192.quo', 'decomposed192.add', 'U192.div']),
     'C18': P('C18', 3200, 300000, modules=['D128.Props.C18', 'D128.Props.C18b', 'D128.Props.C18c', 'D128.Props.C18Oracle', 'D128.Props.C15', 'D128.Props.C02Quo'] + KERNEL + WIDE, kernel=['decomposed192.log', 'decomposed192.epow', 'decomposed192.rcp', 'decomposed192.mul']),
     'C19': P('C19', 8000, 600000, modules=['D128.Props.C19', 'D128.Props.C19b', 'D128.Props.C19c', 'D128.Props.C19d', 'D128.Props.C19e', 'D128.Props.C19f', 'D128.Props.C19g', 'D128.Props.C01', 'D128.Props.C02', 'D128.Props.C02Quo', 'D128.Props.C04', 'D128.Props.C10', 'D128.Props.C11'], kernel=['Decimal.Canonical', 'U128.div10', 'U128.mul64']),
-    'C20': P('C20', 3200, 100000, modules=['D128.Props.C20', 'D128.Props.C20b', 'D128.Props.C20c', 'D128.Props.C20d', 'D128.Props.C07b', 'D128.Props.C07c', 'D128.Props.C05Scan', 'D128.Props.C05Entry', 'D128.Props.C06', 'D128.Props.C06b', 'D128.Props.C13', 'D128.Props.C14', 'D128.Props.C10b', 'D128.Props.C09b', 'D128.Gen.Facts'], race=True, spec_filter=r'undocumented panic|nondeterministic'),
+    'C20': P('C20', 3200, 100000, modules=['D128.Props.C20', 'D128.Props.C20b', 'D128.Props.C20c', 'D128.Props.C20d', 'D128.Props.C07b', 'D128.Props.C07c', 'D128.Props.C05Scan', 'D128.Props.C05Entry', 'D128.Props.C06', 'D128.Props.C06b', 'D128.Props.C13', 'D128.Props.C14', 'D128.Props.C10b', 'D128.Props.C09b', 'D128.Gen.Facts'], race=True, spec_filter=r'undocumented panic|nondeterministic|did not return'),
 }
